@@ -1110,7 +1110,12 @@ def av1_seq_header(rng, dist, force=None):
             epi = rng.randrange(2); w.f(1, epi)
             if epi:
                 br.append("equal_picture_interval")
-                lz = rng.choice([0, 0, 1, 3, 7]); w.f(lz, 0); w.f(1, 1); w.f(lz, rng.randrange(2 ** lz))
+                # uvlc(): lz leading zeros, a one, lz value bits - except that 32 leading zeros mean the
+                # value 2^32 - 1 and NO value bits follow (AV1 spec 4.10.3)
+                lz = pick("uvlc_lz", [0, 0, 1, 3, 7, 31, 32]); w.f(lz, 0); w.f(1, 1)
+                if lz < 32:
+                    w.f(lz, rng.randrange(2 ** lz))
+                br.append("uvlc_lz=%d" % lz)
             dmi = pick("dmi", [0, 1]); w.f(1, dmi)
             if dmi:
                 br.append("decoder_model_info")
